@@ -445,8 +445,8 @@ theorem c_logonReply (b : SState) (s : Sess) (m : InMsg) (flag : Bool) (h : Same
     · exact c_sendLogonRe b _ flag m
 
 theorem c_nxEval (b : SState) (s : Sess) (m : InMsg) (ns : Int) (h : Same b s) :
-    nxEval (s.setSt b) m ns = (nxEval s m ns).setSt b := by
-  unfold nxEval
+    nxEval (s.setSt b) m ns = mapSt b (nxEval s m ns) := by
+  unfold nxEval mapSt
   reads
   by_cases h1 : (s.cfg.nextExpected && !(m.f.has 141)) = true
   · simp only [h1, ↓reduceIte]
@@ -456,26 +456,35 @@ theorem c_nxEval (b : SState) (s : Sess) (m : InMsg) (ns : Int) (h : Same b s) :
       simp only []
       by_cases h2 : (n != ns) = true
       · simp only [h2, ↓reduceIte]
-        exact c_enqueueAndSend b s _ h
+        by_cases h3 : s.cfg.persist = true
+        · simp only [h3, ↓reduceIte]
+          rw [c_enqueueAndSend b s _ h]; rfl
+        · simp only [h3, ↓reduceIte, Bool.false_eq_true]
       · simp only [h2, ↓reduceIte, Bool.false_eq_true]
   · simp only [h1, ↓reduceIte, Bool.false_eq_true]
 
 theorem c_logonFinish (b : SState) (s : Sess) (m : InMsg) (ns : Int) (h : Same b s) :
     logonFinish (s.setSt b) m ns = mapSt b (logonFinish s m ns) := by
-  unfold logonFinish mapSt
+  unfold logonFinish
   have c2 : ∀ x : Sess, checkTooHigh (x.setSt b) m = checkTooHigh x m := fun _ => rfl
   dsimp only [setSt_setSentReset, setSt_emit, setSt_hb]
   have h' : Same b (((s.setSentReset false).emit (Obs.armPeer (1200 * s.hb))).emit Obs.onLogon) :=
     h.of_Q (((Q.of_eq (s := s) (s' := s.setSentReset false) rfl rfl rfl rfl rfl rfl rfl).trans0 (q_emit _ _ rfl)).trans0 (q_emit _ _ rfl))
-  rw [c_nxEval b _ m ns h', c2]
-  split <;> rfl
+  rw [c_nxEval b _ m ns h']
+  generalize nxEval (((s.setSentReset false).emit (Obs.armPeer (1200 * s.hb))).emit Obs.onLogon) m ns = r
+  obtain ⟨x, o⟩ := r
+  cases o with
+  | some r => rfl
+  | none =>
+    simp only [mapSt, c2]
+    split <;> rfl
 
 theorem logonRefuses_setSt (b : SState) (s : Sess) (m : InMsg) (flag : Bool) (h : Same b s) :
     logonRefuses (s.setSt b) m flag = logonRefuses s m flag := by
   have e1 : nxRefuses (s.setSt b) m = nxRefuses s m := rfl
   unfold logonRefuses
   rw [e1]
-  show ((if s.cfg.initiator then !(m.f.has 141) else !(flag && s.sentReset && b.loggedOn)) && nxRefuses s m) = _
+  show (!s.cfg.initiator && !(flag && s.sentReset && b.loggedOn) && nxRefuses s m) = _
   rw [h.lo]
 
 theorem c_logonRefused (b : SState) (s : Sess) (m : InMsg) : logonRefused (s.setSt b) m = (logonRefused s m).setSt b := by
@@ -486,32 +495,32 @@ theorem c_logonRefused (b : SState) (s : Sess) (m : InMsg) : logonRefused (s.set
     cases getInt m 108 <;> rfl
   · simp only [h1, ↓reduceIte, Bool.false_eq_true]
 
-theorem c_logonTail (b : SState) (s : Sess) (m : InMsg) (h : Same b s) :
-    logonTail (s.setSt b) m = mapSt b (logonTail s m) := by
+theorem c_logonTail (b : SState) (s : Sess) (m : InMsg) (ns : Int) (h : Same b s) :
+    logonTail (s.setSt b) m ns = mapSt b (logonTail s m ns) := by
   unfold logonTail
   rw [logonRefuses_setSt b s m _ h]
   by_cases h1 : logonRefuses s m (logonResetFlag m) = true
   · simp only [h1, ↓reduceIte, c_logonRefused, mapSt]
   · simp only [h1, ↓reduceIte, Bool.false_eq_true]
-    rw [c_logonReply b s m _ h, setSt_store]
+    rw [c_logonReply b s m _ h]
     exact c_logonFinish b _ m _ (h.of_Q (q_logonReply s m _))
 
 /-- the part of handleLogon after the optional refresh -/
-theorem c_handleLogon_tail (b : SState) (s1 : Sess) (m : InMsg) (h : Same b s1) :
+theorem c_handleLogon_tail (b : SState) (s1 : Sess) (m : InMsg) (ns : Int) (h : Same b s1) :
     (match verifyAppImpl (s1.setSt b) m with
       | (s, some r) => (s, some (LogonErr.rej r))
       | (s, none) =>
         match verifySelect (if ((if s.cfg.initiator then false else s.cfg.resetOnLogon) || (logonResetFlag m && !s.sentReset)) = true
               then dropAndReset s else s) m false true false with
         | (s, some r) => (s, some (LogonErr.rej r))
-        | (s, none) => logonTail s m) =
+        | (s, none) => logonTail s m ns) =
     mapSt b (match verifyAppImpl s1 m with
       | (s, some r) => (s, some (LogonErr.rej r))
       | (s, none) =>
         match verifySelect (if ((if s.cfg.initiator then false else s.cfg.resetOnLogon) || (logonResetFlag m && !s.sentReset)) = true
               then dropAndReset s else s) m false true false with
         | (s, some r) => (s, some (LogonErr.rej r))
-        | (s, none) => logonTail s m) := by
+        | (s, none) => logonTail s m ns) := by
   rw [c_verifyAppImpl]
   have hv := q_verifyAppImpl s1 m
   generalize verifyAppImpl s1 m = r at hv
@@ -540,7 +549,7 @@ theorem c_handleLogon_tail (b : SState) (s1 : Sess) (m : InMsg) (h : Same b s1) 
     obtain ⟨s4, o2⟩ := r2
     cases o2 with
     | some r => rfl
-    | none => simp only [mapSt, c_logonTail b s4 m ((h.of_Q q3).of_Q q4)]
+    | none => simp only [mapSt, c_logonTail b s4 m ns ((h.of_Q q3).of_Q q4)]
 
 theorem c_handleLogon (b : SState) (s : Sess) (m : InMsg) (h : Same b s) :
     handleLogon (s.setSt b) m = mapSt b (handleLogon s m) := by
@@ -551,9 +560,9 @@ theorem c_handleLogon (b : SState) (s : Sess) (m : InMsg) (h : Same b s) :
   · simp only [h0, ↓reduceIte, Bool.false_eq_true]
     by_cases h1 : (!s.cfg.initiator && s.cfg.refreshOnLogon) = true
     · simp only [h1, ↓reduceIte]
-      exact c_handleLogon_tail b (s.emit .refresh) m (h.of_Q (q_emit s _ rfl))
+      exact c_handleLogon_tail b (s.emit .refresh) m _ (h.of_Q (q_emit s _ rfl))
     · simp only [h1, ↓reduceIte, Bool.false_eq_true]
-      exact c_handleLogon_tail b s m h
+      exact c_handleLogon_tail b s m _ h
 
 theorem c_inSessionFixMsgIn (b : SState) (s : Sess) (m : InMsg) (h : Same b s) :
     inSessionFixMsgIn (s.setSt b) m = mapSt b (inSessionFixMsgIn s m) := by
@@ -867,15 +876,21 @@ theorem hb_enqueueAndSend (s : Sess) (m : OutMsg) : (enqueueAndSend s m).hb = s.
   simp only [hb_sendQueued]
   split <;> rfl
 
-theorem hb_nxEval (s : Sess) (m : InMsg) (ns : Int) : (nxEval s m ns).hb = s.hb := by
+theorem hb_nxEval (s : Sess) (m : InMsg) (ns : Int) : (nxEval s m ns).1.hb = s.hb := by
   unfold nxEval
   repeat' split
   all_goals first | rfl | exact hb_enqueueAndSend _ _
 
 theorem hb_logonFinish (s : Sess) (m : InMsg) (ns : Int) : (logonFinish s m ns).1.hb = s.hb := by
   unfold logonFinish
-  simp only []
-  split <;> exact hb_nxEval _ m ns
+  have h := hb_nxEval (((s.setSentReset false).emit (.armPeer (1200 * s.hb))).emit .onLogon) m ns
+  generalize nxEval _ m ns = r at h
+  obtain ⟨x, o⟩ := r
+  cases o with
+  | some r => exact h
+  | none =>
+    simp only [] at h ⊢
+    split <;> exact h
 
 /-- the interval in force after the Logon reply -/
 def hbAfterLogon (s : Sess) (m : InMsg) : Int :=
@@ -945,7 +960,7 @@ theorem hb_handleLogon (s s' : Sess) (m : InMsg) (r : Option LogonErr) (h : hand
         split at h
         · simp only [Prod.mk.injEq] at h
           rcases hok with rfl | ⟨n, t, rfl⟩ <;> simp at h
-        have hfin := hb_logonFinish (logonReply s4 m (logonResetFlag m)) m s4.store.sender
+        have hfin := hb_logonFinish (logonReply s4 m (logonResetFlag m)) m s.store.sender
         rw [h] at hfin
         simp only [] at hfin
         rw [hfin, hb_logonReply]
